@@ -207,6 +207,25 @@ func partSplittings(ctx context.Context, r *vkit.Run, s storage.Storage, stack s
 			total = rng.Intn(5000)
 		}
 		nparts := rng.Range(1, 6)
+		if stack == "ecbig" {
+			// parts larger than one 256 KiB stripe: the store reads them with full-stripe reads into a reused buffer
+			total = rng.Range(300*1024, 2500*1024)
+			nparts = rng.Range(1, 3)
+			if i%4 == 0 {
+				// and a plain PutObject of such a body with its Content-MD5 supplied
+				body := rng.Bytes(rng.Range(300*1024, 1500*1024))
+				ref := vmodel.RefChecksums(body)
+				pk := storage.MustNewObjectKey(fmt.Sprintf("big-put-%d", i))
+				pres, perr := s.PutObject(ctx, bn, pk, nil, bytesReader(body), &storage.ChecksumInput{ETag: &ref.ETag}, nil)
+				r.Eval(fmt.Sprintf("big-put|%s|%s", stack, sizeClass(len(body))))
+				if perr != nil {
+					r.Violation("correct-content-md5-rejected:put", fmt.Sprintf("PutObject of %d bytes with its correct Content-MD5 failed: %v", len(body), perr), map[string]any{"stack": stack, "size": len(body), "case": i})
+				} else if pres.ETag == nil || *pres.ETag != ref.ETag {
+					r.Violation("etag-mismatch:put", fmt.Sprintf("PutObject of %d bytes returned ETag %v, MD5 is %s", len(body), vkit.Deref(pres.ETag), ref.ETag), map[string]any{"stack": stack, "size": len(body), "case": i})
+				}
+				_, _ = s.DeleteObject(ctx, bn, pk, nil)
+			}
+		}
 		cuts := []int{0}
 		for j := 1; j < nparts; j++ {
 			cuts = append(cuts, rng.Intn(total+1))
